@@ -197,7 +197,15 @@ def _tlv(ctx, shape):
     else:
         content = bytes(L)
     tail = ctx.bytes("tail", 1)
-    r = _call(ctx, lambda: A._pack_asn1(cls, cons, num, content), "pack")
+    def pack():
+        if hasattr(A, "_pack_asn1"):
+            return A._pack_asn1(cls, cons, num, content)
+        # the private helper is gone (refactor): the public writer emits the same TLV
+        w = A.ASN1Writer()
+        w.write_octet_string(content, tag=A.ASN1Tag(A.TagClass(cls), num, cons))
+        return w.get_data()
+
+    r = _call(ctx, pack, "pack")
     if r[0] != "ok":
         from sx.harness import exc_site
 
@@ -314,7 +322,7 @@ def _hdr(ctx, shape):
         exp = ("short",)
     except _Bad:
         exp = ("bad",)
-    r = _call(ctx, lambda: A._read_asn1_header(data), "hdr")
+    r = _call(ctx, lambda: A._read_asn1_header(data) if hasattr(A, "_read_asn1_header") else A.ASN1Reader(data).peek_header(), "hdr")
     if r[0] == "exc":
         ctx.observe("exc", r[1])
         from sx.harness import exc_site
